@@ -1994,6 +1994,9 @@ func (ex *Exec) siteAsserts(fr *frame, st *State, cc *ssa.CallCommon, instr ssa.
 			o := ex.oblige(st, fmt.Sprintf("assert[%s]", key), fmt.Sprintf("assertion %d before the call: %s", i, cl.Text), g, pos)
 			if o != nil {
 				o.Clause = cl
+				if len(cl.Props) > 0 {
+					o.Props = cl.Props // (a `props` line inside a contract narrows the clauses that follow it, as for ensures)
+				}
 			}
 		}
 	}
